@@ -4,11 +4,18 @@ from bounded import harness, state, universe, oracle
 import gfapy
 
 NEW = {
-    "gfa1": {"S": "S\t{}\t*", "P": "P\t{}\tA+\t*", "L": "L\tA\t-\tC\t-\t7M\tID:Z:{}", "C": "C\tA\t-\tC\t-\t2\t*\tID:Z:{}"},
+    "gfa1": {"S": "S\t{}\t*", "P": "P\t{}\tA+\t*", "L": "L\tA\t-\tC\t-\t7M\tID:Z:{}", "C": "C\tA\t-\tC\t-\t2\t*\tID:Z:{}",
+             "Lv": "L\tC\t+\tA\t-\t3M\tID:Z:{}"},        # takes the place of the virtual link of the base with the path pv
     "gfa2": {"S": "S\t{}\t5\t*", "E": "E\t{}\tA-\tC-\t0\t2\t0\t2\t*", "G": "G\t{}\tA-\tC-\t3\t*", "O": "O\t{}\tA+", "U": "U\t{}\tA"},
 }
-BASES = {"gfa1": [["sA", "sB", "sC"], ["sA", "sB", "sC", "l1", "l10", "c2", "p1"], ["sA", "sB", "sC", "l1", "l7", "p2", "p4"]],
+BASES = {"gfa1": [["sA", "sB", "sC"], ["sA", "sB", "sC", "l1", "l10", "c2", "p1"], ["sA", "sB", "sC", "l1", "l7", "p2", "p4"],
+                  ["sA", "sB", "sC", "l10", "raw:P\tpv\tC+,A-\t*"]],            # a path read before its link: a virtual link C+ A- exists
          "gfa2": [["sA", "sB", "sC"], ["sA", "sB", "sC", "e1", "g1", "o1", "u1"], ["sA", "sB", "sC", "e1", "e6", "ua", "ub", "oa", "ob", "u4", "u1"]]}
+
+
+def doc_lines(version, ids):
+    cat = universe.CAT[version]
+    return universe.lines_of(version, universe.closure(cat, [i for i in ids if not i.startswith("raw:")])) + [i[4:] for i in ids if i.startswith("raw:")]
 
 
 def in_use(tm, name):
@@ -18,13 +25,18 @@ def in_use(tm, name):
 def check(case):
     version, ids, op = case
     cat = universe.CAT[version]
-    lines = universe.lines_of(version, universe.closure(cat, ids))
+    lines = doc_lines(version, ids)
     fails = []
     key = (version, tuple(ids), tuple(op))
     def fail(sig, what):
         fails.append(dict(signature="C09:" + sig, what=what, case=dict(version=version, lines=lines, op=list(op)),
                           reproducer="import gfapy\nfrom bounded import state\ng = gfapy.Gfa(%r)\n# %r\nprint(state.uniq_errors(g), g.names)" % (lines, op)))
-    g = gfapy.Gfa(lines, vlevel=1)
+    if any(i.startswith("raw:") for i in ids):
+        g = gfapy.Gfa(vlevel=1)              # a document with a forward reference that is still open: built line by line, not validated as a whole
+        for l in lines:
+            g.add_line(l)
+    else:
+        g = gfapy.Gfa(lines, vlevel=1)
     tm = oracle.TextModel("\n".join(lines), version)
     e0 = state.uniq_errors(g)
     if e0:
@@ -33,6 +45,7 @@ def check(case):
     if op[0] == "add":
         rt, name = op[1], op[2]
         text = NEW[version][rt].format(name)
+        rt = rt[0]
         prev = in_use(tm, name) if name != "*" else None
         try:
             g.add_line(text)
@@ -72,8 +85,9 @@ def check(case):
             if g.line(old) is not None:
                 fail("old-name-still-resolves", "%s -> %s" % (old, new))
             tm2 = tm.copy(); tm2.rename(old, new)
-            if oracle.view(str(g), version)[1] != oracle.view(tm2.text(), version)[1]:
-                fail("rename-text-differs", str(oracle.view_diff(oracle.view(tm2.text(), version)[1], oracle.view(str(g), version)[1])))
+            written = "\n".join(x for x in str(g).split("\n") if "GFAPY_virtual_line" not in x)      # placeholders of open forward references are not content
+            if oracle.view(written, version)[1] != oracle.view(tm2.text(), version)[1]:
+                fail("rename-text-differs", str(oracle.view_diff(oracle.view(tm2.text(), version)[1], oracle.view(written, version)[1])))
     elif op[0] == "unused":
         for _ in range(3):
             n = g.unused_name()
@@ -93,12 +107,14 @@ def cases(tier, seed):
     out = []
     for version in ("gfa1", "gfa2"):
         for ids in BASES[version]:
-            tm = oracle.TextModel(universe.text_of(version, universe.closure(universe.CAT[version], ids)), version)
+            tm = oracle.TextModel("\n".join(doc_lines(version, ids)), version)
             named = [tm.name_of(r) for r in tm.recs if tm.name_of(r)]
             pool = sorted(set(named)) + ["Fresh", "*", "7", "007", "12"]
             for rt in NEW[version]:
+                if rt == "Lv" and not any(i.startswith("raw:") for i in ids):
+                    continue
                 for name in pool:
-                    if name == "*" and rt in ("S", "P", "L", "C"):
+                    if name == "*" and rt in ("S", "P", "L", "C", "Lv"):
                         continue          # '*' is not an identifier of these record types
                     out.append((version, ids, ("add", rt, name)))
             for old in named:
